@@ -234,6 +234,30 @@ def run(ctx):
                        'on the true edge of try_take_fraction the fraction variable is set to 0 and the remaining amount is rebuilt from it', fb_.loc(cb_))
     ctx.floor('R04.9', n9, 3, 'fraction grant sites in the group claim functions')
 
+    # ---- R04.10 a request names each resource once
+    ctx.rule('R04.10', 'gateway ResourceRequest::validate refuses a request that names a resource twice by comparing every pair of entries (a windows(2) / dedup style adjacent comparison is only complete on a slice sorted in the same function); the allocator claims per entry, so a duplicate entry is granted twice')
+    gv = prog.body('tako::gateway::ResourceRequest::validate')
+    adj = [bi for bi, t, c in gv.calls() if bi in gv.reachable() and (c or '').endswith(('::windows', '::dedup', '::dedup_by_key', '::dedup_by', '::array_windows', '::is_sorted'))]
+    srt = [bi for bi, t, c in gv.calls() if bi in gv.reachable() and ('::sort' in (c or ''))]
+    eqs = [bi for bi, t, c in gv.calls() if bi in gv.reachable() and (callee_decl(t) or '').endswith(('PartialEq::eq', 'PartialEq::ne'))] + \
+          [bi for bi, t, c in gv.calls() if bi in gv.reachable() and (c or '').endswith(('HashSet::insert', 'Set::insert', 'BTreeSet::insert'))]
+    nested = any(len(loop_headers_containing(gv, bi)) >= 2 for bi in eqs) or any((c or '').endswith(('HashSet::insert', 'Set::insert', 'BTreeSet::insert')) for bi, t, c in gv.calls())
+    ctx.ob('R04.10', 'ResourceRequest::validate|every pair of entries compared', bool(eqs) and (nested or (adj and srt and all(a_ not in gv.reach_from([0], avoid=srt) for a_ in adj))) and not (adj and not srt),
+           'the duplicate test compares each entry with every later one (nested loop or a set); an adjacent-only comparison on the unsorted user order misses non-adjacent duplicates', gv.loc(adj[0]) if adj else gv.loc())
+
+    # ---- R04.11 a timed-out task gives its resources back only after it has ended
+    ctx.rule('R04.11', 'handle_task_future: after the time-limit notification was sent the task future is awaited again before its result is used (the task is removed and its allocation released only after the future completed; returning a result right after the notification releases resources a still running process holds)')
+    hco = [prog.bodies[p_] for p_ in prog.with_closures(REACT + 'handle_task_future') if prog.bodies[p_].kind == 'coroutine']
+    ctx.require(hco, 'R04.11: handle_task_future coroutine')
+    hb4 = max(hco, key=lambda b_: b_.n)
+    ntf = hb4.call_blocks(lambda c: c.endswith('RunningTask::send_timeout_notification'))
+    ctx.floor('R04.11', len(ntf), 1, 'send_timeout_notification in handle_task_future')
+    rel4 = [bi for bi, t, c in hb4.calls() if bi in hb4.reachable() and (c or '').endswith(('WorkerState::remove_running_task', 'ResourceAllocator::release_allocation', 'StableMap::remove'))] or list(hb4.returns())
+    ys4 = [bi for bi, t, c in hb4.calls() if bi in hb4.reachable() and (c or '').endswith('Future>::poll') and 'Await' in (t.get('x') or '')]
+    ok4, _w = must_pass(hb4, ntf, ys4, exits=rel4 + list(hb4.returns()))
+    ctx.ob('R04.11', 'handle_task_future|task awaited again after the time-limit notification', bool(ys4) and ok4,
+           'every path from send_timeout_notification to the removal of the task / release of its allocation suspends on the task future again', hb4.loc(ntf[0]))
+
     # ---- R04.4
     lt = ts.call_blocks(REACT + 'launch_task')
     ctx.require(lt, 'R04.4: launch_task call')
